@@ -18,6 +18,7 @@ PROP = "C03"
 F_EPOCH = "C03-epoch-order"
 F_FORGED = "C03-client-cache-forged-download"
 F_TAINT = "C03-client-cache-tainted-entry"
+F_JUMP = "C03-client-cache-unchecked-fetched-hash"
 
 
 def _cfg(c, name, known, invariants=None, flip=None):
@@ -29,6 +30,8 @@ def _cfg(c, name, known, invariants=None, flip=None):
         text = text.replace("EpochOrderStrict = FALSE", "EpochOrderStrict = TRUE")
     if F_FORGED not in known and F_TAINT not in known:
         text = text.replace("CacheSound = FALSE", "CacheSound = TRUE")
+    if F_JUMP not in known:
+        text = text.replace("FetchedHashChecked = FALSE", "FetchedHashChecked = TRUE")
     for a, b in (flip or []):
         text = text.replace(a, b)
     tag = name[:-4]
@@ -165,6 +168,9 @@ def run(tier, seed):
     if not quick:
         c.mc("cert", "MC_CertChain", _cfg(c, "MC_CertChain_thorough.cfg", known), name="chain-thorough",
              workers=12, timeout=3400, coverage=False, heap="12g")
+        # double alterations inside and across the composite fields, twins included
+        c.mc("cert", "MC_CertChain", _cfg(c, "MC_CertChain_thorough_twins.cfg", known), name="chain-thorough-twins",
+             workers=12, timeout=3400, coverage=False, heap="12g")
         g5 = c.mc("cert", "MC_CertChain", _cfg(c, "MC_CertChain_gen5.cfg", known), name="chain-5",
                   workers=8, timeout=3400, coverage=False, heap="12g")
         more, bad5 = _cases(g5)
@@ -198,22 +204,44 @@ def run(tier, seed):
     g1 = c.mc("cert", "MC_CertClient", _cfg(c, "MC_CertClient_quick1.cfg" if quick else "MC_CertClient_thorough1.cfg", known),
               name="client-1-attempt", workers=6, timeout=3000, coverage=False, heap="8g")
     _require_no_model_cex(c, g1, "MC client 1")
-    c.mc("cert", "MC_CertClient", _cfg(c, "MC_CertClient_quick2.cfg" if quick else "MC_CertClient_thorough2.cfg", known),
-         name="client-2-attempts", workers=8 if quick else 12, timeout=3400, coverage=False, heap="12g")
+    if not quick:
+        # (quick tier: the two-attempt model is checked by the GEN run below, same constants as quick2)
+        c.mc("cert", "MC_CertClient", _cfg(c, "MC_CertClient_thorough2.cfg", known),
+             name="client-2-attempts", workers=12, timeout=3400, coverage=False, heap="12g")
     g2 = c.mc("cert", "MC_CertClient", _cfg(c, "MC_CertClient_gen2.cfg", known), name="client-gen-2-attempts",
               workers=6, timeout=1500, coverage=False)
     _witness(c, "MC_CertClient", "MC_CertClient_quick1.cfg", known, F_FORGED, "NoForgedHit", workers=8, timeout=900)
     _witness(c, "MC_CertClient", "MC_CertClient_quick2.cfg", known, F_TAINT, "NoTaintedHit", workers=8, timeout=900)
+    _witness(c, "MC_CertClient", "MC_CertClient_quick2.cfg", known, F_JUMP, "NoJumpAccept", workers=8, timeout=900)
     # the model of the proposed fixes needs no excuse (informational: says the fix design is sound in the model)
-    if known & {F_EPOCH, F_FORGED, F_TAINT}:
+    if known & {F_EPOCH, F_FORGED, F_TAINT, F_JUMP}:
         rf = c.mc("cert", "MC_CertClient",
                   _cfg(c, "MC_CertClient_quick2.cfg", known, invariants=["ClientSound"],
-                       flip=[("EpochOrderStrict = FALSE", "EpochOrderStrict = TRUE"), ("CacheSound = FALSE", "CacheSound = TRUE")]),
+                       flip=[("EpochOrderStrict = FALSE", "EpochOrderStrict = TRUE"), ("CacheSound = FALSE", "CacheSound = TRUE"),
+                             ("FetchedHashChecked = FALSE", "FetchedHashChecked = TRUE")]),
                   name="client-proposed-fixes", workers=8, timeout=900, coverage=False)
         c.cov["stages"]["MC:client-proposed-fixes"]["holds_without_excuse"] = rf.violated is None
     s1, b1 = _cases(g1)
     s2, b2 = _cases(g2)
-    n1 = 1000 if quick else 20000
+    if F_FORGED not in known and F_TAINT not in known:
+        # regression histories: the sessions the model of the cache AS IT WAS BEFORE ITS FIX accepts or
+        # rejects at the boundary (a rejected attempt that leaves an entry behind, then an attempt that
+        # hits it) are still realised; the model that generates them no longer describes the code, so
+        # they carry no prediction -- the contract decides
+        g2u = c.mc("cert", "MC_CertClient",
+                   _cfg(c, "MC_CertClient_gen2_prefix.cfg", known, flip=[("CacheSound = TRUE", "CacheSound = FALSE")]),
+                   name="client-gen-2-attempts-prefix-cache-model", workers=6, timeout=1500, coverage=False)
+        old_sessions, b2u = _cases(g2u)
+        for x in old_sessions:
+            for a in x["attempts"]:
+                a.pop("impl", None)
+            x["cls"] = x["cls"] + ["pre-fix-cache-model"]
+        c.cov["stages"]["MC:client-gen-2-attempts-prefix-cache-model"].update(
+            {"cases_total": len(old_sessions), "damaged_case_lines": b2u})
+        c.cov["stages"]["MC:client-gen-2-attempts-prefix-cache-model"].pop("model_counterexample", None)
+        c.cov["stages"]["MC:client-gen-2-attempts-prefix-cache-model"].pop("counterexample_text", None)
+        s2 = s2 + old_sessions
+    n1 = 800 if quick else 20000
     acc1 = [x for x in s1 if x["cls"][0] == "accept"]
     rej1 = [x for x in s1 if x["cls"][0] != "accept"]
     acc1 = _stratified(acc1, _session_key, n1, rnd)
@@ -231,7 +259,7 @@ def run(tier, seed):
         y["attempts"].append(a)
         y["cls"] = y["cls"] + ["retry"]
         retry.append(y)
-    n2 = 1000 if quick else 20000
+    n2 = 800 if quick else 20000
     s2sel = _stratified(s2, _session_key, n2, rnd)
     sessions = acc1 + retry + s2sel
     c.cov["stages"]["MC:client-1-attempt"].update({"cases_total": len(s1), "damaged_case_lines": b1})
@@ -251,8 +279,10 @@ def run(tier, seed):
     recs = vlib.read_ndjson(t1)
     c.cov["stages"]["RUN:chain-cases"] = c.cov["stages"].pop("RUN:c03_chain")
     c.cov["stages"]["RUN:chain-cases"]["prediction_mismatches"] = _drift(c, recs, "chain")
-    c.sample({k: v for k, v in [r for r in recs if r["accepted"]][0].items() if k != "certs"})
-    c.sample({k: v for k, v in [r for r in recs if r["dev_following"]][:1][0].items()} if any(r["dev_following"] for r in recs) else "no following-epoch acceptance")
+    # (samples are run-dependent: never index into a possibly empty selection)
+    c.sample([{k: v for k, v in r.items() if k != "certs"} for r in recs if r["accepted"]][:1])
+    c.sample([{k: v for k, v in r.items() if k != "certs"} for r in recs
+              if _twin_kinds(r["certs"][:1]) and not r["accepted"]][:1])
     c.validate("cert", "CertChainTrace", "CertChainTrace.cfg", t1, name="chain-cases")
 
     t2 = os.path.join(c.work, "chain.random.trace.ndjson")
@@ -267,7 +297,7 @@ def run(tier, seed):
     recs3 = vlib.read_ndjson(t3)
     c.cov["stages"]["RUN:client-cases"] = c.cov["stages"].pop("RUN:c03_client")
     c.cov["stages"]["RUN:client-cases"]["prediction_mismatches"] = _drift(c, recs3, "client")
-    c.sample({k: v for k, v in [r for r in recs3 if r["cache_hits"] and r["accepted"]][0].items() if k != "certs"})
+    c.sample([{k: v for k, v in r.items() if k != "certs"} for r in recs3 if r["cache_hits"] and r["accepted"]][:1])
     c.validate("cert", "CertChainTrace", "CertChainTrace.cfg", t3, name="client-cases")
 
     t4 = os.path.join(c.work, "client.random.trace.ndjson")
@@ -286,7 +316,8 @@ def run(tier, seed):
     c.cov["known_deviation_events"] = {
         "dev_following": len([r for r in allr if r["dev_following"]]),
         "dev_cache_forged": len([r for r in allr if r["dev_cache_forged"]]),
-        "dev_cache_tainted": len([r for r in allr if r["dev_cache_tainted"]])}
+        "dev_cache_tainted": len([r for r in allr if r["dev_cache_tainted"]]),
+        "dev_cache_jump": len([r for r in allr if r["dev_cache_jump"]])}
     c.cov["client_cache_hits"] = sum(len(r.get("cache_hits", [])) for r in recs3 + recs4)
     c.cov["distinct_nontrivial"] = len({json.dumps([r["certs"], r["start"], r["walk"]], sort_keys=True) for r in allr})
     c.cov["rule"] = ("verify_certificate_chain / client verify_chain runs on real certificates realising TLC-generated "
